@@ -20,3 +20,7 @@ pub mod random;
 pub mod message;
 ///Documentation for the utils module
 pub mod util;
+
+#[cfg(feature = "verif_hooks")]
+/// Verification hooks (draw log and replay queue)
+pub mod verif_hooks;
